@@ -359,6 +359,11 @@ def run(ctx):
               key=('R5', 'refusal-reply'), site=ctx.site(rq, rq.node))
 
     # ---------------------------------------------------------------- R6
+    # what the kernel is told a selector is: addresses, prefix lengths, ports, masks, protocol and the address FAMILY of the selector
+    # network itself (the tunnel endpoints may be of the other family), in the SA and in the policies (shared with C01 O8 / C14 L3 / C15 Y2)
+    common.create_sa_orientation(ctx, 'R6')
+    from .c14 import check_policy_builder
+    check_policy_builder(ctx, 'R6')
     cc = ctx.func('xfrm.Xfrm.create_child_sa')
     C = ctx.sval(cc)
     outs = [c for c in C.calls_to(qual='xfrm.Xfrm.create_sa') if c.args.get('spi') == attr(('param', 'child_sa'), 'outbound_spi')]
